@@ -32,10 +32,11 @@ ASSUMPTIONS = ['recovery is decided on the enumerated dataset alphabet only', 'V
 CHUNK = 400
 CELL_TAUS = (0.3, 0.4, 0.5, 0.6, 0.7)
 N_REC = 4000
+N_BIG = 9000          # every other recovery data set is larger than any plausible internal block size
 
 
 def bounds(tier):
-    return {'n_max_exhaustive': 5 if tier == 'quick' else 6, 'recovery_cells': 15, 'K': 12 if tier == 'quick' else 40, 'n_recovery': N_REC}
+    return {'n_max_exhaustive': 5 if tier == 'quick' else 6, 'recovery_cells': 15, 'K': 12 if tier == 'quick' else 40, 'n_recovery': [N_REC, N_BIG]}
 
 
 def prefork():
@@ -72,9 +73,10 @@ def cell_dataset(fam, tau, k, seed):
     th = theta_for(fam, tau)
     if k == 0:
         return samplers.sample(fam, th, N_REC, points=A.lattice(N_REC + 1, 2)[1:])
+    n = N_REC if k % 2 == 0 else N_BIG
     rs = np.random.RandomState((1000003 * (seed + 1) + 7919 * k + int(tau * 100) * 31 +
                                 {'clayton': 1, 'gumbel': 2, 'frank': 3}[fam]) % (2 ** 32))
-    return samplers.sample(fam, th, N_REC, rs=rs)
+    return samplers.sample(fam, th, n, rs=rs)
 
 
 def _calibrated(r, res, tref, case, tag):
